@@ -124,6 +124,8 @@ def cas_is_zero(d, budget_s=20.0):
         return True
     for step in (
         lambda e: sp.expand(e),
+        lambda e: sp.expand(sp.numer(sp.together(e))),
+        lambda e: sp.expand(sp.numer(sp.together(sp.expand_power_base(sp.powdenest(sp.expand_log(e, force=True), force=True), force=True)))),
         cas_normal_form,
         lambda e: sp.expand(sp.powsimp(sp.expand(sp.numer(sp.together(cas_normal_form(e)))), force=True)),
         lambda e: sp.simplify(cas_normal_form(e)),
@@ -229,8 +231,24 @@ def prove_equal_cas(lhs, rhs, box, hyp=None, positive=None, seed=0, npoints=12, 
         return Verdict(UNKNOWN, "CAS", detail="no evaluable point in the box", seconds=time.time() - t0)
     pos = positive if positive is not None else [k for k, (lo, _) in box.items() if lo > 0]
     try:
-        sd = to_sympy(d, positive=pos)
-        ok = cas_is_zero(sd)
+        # first attempt: abstract every transcendental sub-term (exp / log / real power / sqrt / opaque
+        # application) by a fresh symbol; an identity of the abstraction holds for every value of the
+        # symbols, in particular for the functions (sound, incomplete)
+        amap = {}
+        for n in tm.postorder(d):
+            if n.op in ("exp", "log", "sqrt", "app") or (n.op == "rpow" and not tm.is_const(n.args[1])):
+                amap[n] = tm.var(f"_abs{len(amap)}", tm.R)
+        ok = False
+        if amap:
+            # innermost-first substitution keeps outer transcendental terms abstract as wholes
+            da = tm.subst(d, amap)
+            try:
+                ok = cas_is_zero(to_sympy(da, positive=list(pos) + [v.args[0] for k, v in amap.items() if k.op in ("exp", "sqrt")]))
+            except NotImplementedError:
+                ok = False
+        if not ok:
+            sd = to_sympy(d, positive=pos)
+            ok = cas_is_zero(sd)
     except NotImplementedError as e:
         return Verdict(UNKNOWN, "CAS", detail=str(e), seconds=time.time() - t0)
     if ok:
@@ -752,7 +770,9 @@ def _bb(t, boxes, cuts, mode, hyp, max_boxes, min_width):
             if v.width() > 0 and w > best:
                 best, key = w, k
         if key is None or best < min_width:
-            return ("stuck", n, {"box": {k: (v.lo, v.hi) for k, v in box.items()}, "enclosure": None if r is None else (r.lo, r.hi)})
+            if worst is None:
+                worst = {"box": {k: (v.lo, v.hi) for k, v in box.items()}, "enclosure": None if r is None else (r.lo, r.hi)}
+            continue
         v = box[key]
         m = (v.lo + v.hi) / 2
         b1, b2 = dict(box), dict(box)
@@ -760,7 +780,33 @@ def _bb(t, boxes, cuts, mode, hyp, max_boxes, min_width):
         b2[key] = Iv(m, v.hi)
         stack.append(b1)
         stack.append(b2)
-    return ("proved", n, worst)
+    if worst is not None:
+        return ("stuck", n, worst)
+    return ("proved", n, None)
+
+
+def _presample(t, ivbox, ivcuts, mode, hyp, n=300, seed=0):
+    """cheap search for a definite counterexample at thin boxes (grid corners + random points)"""
+    if ivcuts or mode == "defined":
+        return None
+    rng = random.Random(seed)
+    keys = list(ivbox)
+    for i in range(n):
+        if i < 2 ** min(len(keys), 6):
+            pt = {k: (ivbox[k].lo if (i >> j) & 1 == 0 else ivbox[k].hi) for j, k in enumerate(keys)}
+        else:
+            pt = {k: ivbox[k].lo + (ivbox[k].hi - ivbox[k].lo) * rng.random() for k in keys}
+        b = {k: Iv(v) for k, v in pt.items()}
+        try:
+            if hyp is not None and ieval(hyp, b) != TRI_T:
+                continue
+            r = ieval(t, b)
+        except IvUndefined:
+            continue
+        bad = (mode == ">0" and r.hi <= 0) or (mode == ">=0" and r.hi < 0) or (mode == "<0" and r.lo >= 0) or (mode == "<=0" and r.lo > 0)
+        if bad:
+            return {"point": pt, "value": (r.lo, r.hi)}
+    return None
 
 
 def prove_int(t, box, mode=">0", hyp=None, cuts=None, max_boxes=400000, min_width=1e-9, presplit=None, pool=None):
@@ -768,6 +814,9 @@ def prove_int(t, box, mode=">0", hyp=None, cuts=None, max_boxes=400000, min_widt
     t0 = time.time()
     ivbox = {k: Iv(float(lo), float(hi)) for k, (lo, hi) in box.items()}
     ivcuts = {k: Iv(float(lo), float(hi)) for k, (lo, hi) in (cuts or {}).items()}
+    pre = _presample(t, ivbox, ivcuts, mode, hyp)
+    if pre is not None:
+        return Verdict(REFUTED, "INT", witness=pre["point"], detail=f"counterexample point: value in {pre['value']}", seconds=time.time() - t0, stats={"boxes": 0})
     boxes = [ivbox]
     if presplit:
         for k, parts in presplit.items():
@@ -794,3 +843,102 @@ def prove_int(t, box, mode=">0", hyp=None, cuts=None, max_boxes=400000, min_widt
         if status != "proved":
             return Verdict(UNKNOWN, "INT", detail=f"{status}: {info}", seconds=dt, stats={"boxes": n})
     return Verdict(PROVED, "INT", detail=f"{n} boxes", seconds=dt, stats={"boxes": n})
+
+
+# =============================================================================================
+# sympy -> term (used to hand a CAS-normalised form of a term to INT; the rewriting is re-checked
+# numerically at 50 digits by the caller)
+
+
+def from_sympy(e, sorts=None):
+    import sympy as sp
+
+    sorts = sorts or {}
+
+    def go(x):
+        if x.is_Rational:
+            return tm.const(Fraction(int(x.p), int(x.q)), tm.R)
+        if x.is_Float:
+            return tm.rconst(Fraction(str(x)))
+        if x.is_Symbol:
+            return tm.var(x.name, sorts.get(x.name, tm.I if x.is_integer else tm.R))
+        if x.is_Add:
+            return tm.add(*[go(a) for a in x.args])
+        if x.is_Mul:
+            num, den = [], []
+            for a in x.args:
+                if a.is_Pow and a.exp.is_Rational and a.exp < 0:
+                    den.append(go(sp.Pow(a.base, -a.exp)))
+                else:
+                    num.append(go(a))
+            n = tm.mul(*num) if num else tm.rconst(1)
+            if den:
+                return tm.div(n, tm.mul(*den))
+            return n
+        if x.is_Pow:
+            if x.exp.is_Rational and x.exp < 0:
+                return tm.div(tm.rconst(1), go(sp.Pow(x.base, -x.exp)))
+            if x.exp == sp.Rational(1, 2):
+                return tm.sqrt(go(x.base))
+            return tm.power(go(x.base), go(x.exp))
+        if isinstance(x, sp.exp):
+            return tm.exp(go(x.args[0]))
+        if isinstance(x, sp.log):
+            return tm.log(go(x.args[0]))
+        if isinstance(x, sp.Abs):
+            return tm.absv(go(x.args[0]))
+        if isinstance(x, sp.Min):
+            r = go(x.args[0])
+            for a in x.args[1:]:
+                r = tm.minimum(r, go(a))
+            return r
+        if isinstance(x, sp.Max):
+            r = go(x.args[0])
+            for a in x.args[1:]:
+                r = tm.maximum(r, go(a))
+            return r
+        if x.is_Function:
+            return tm.app(x.func.__name__, [go(a) for a in x.args], tm.R)
+        if x == sp.E:
+            return tm.exp(tm.rconst(1))
+        raise NotImplementedError(f"from_sympy {type(x).__name__}: {x}")
+
+    return go(e)
+
+
+def cas_rewrite(t, positive=(), how="expand", check_box=None, seed=0):
+    """t rewritten by sympy (expand / collect in a variable / horner); the result is checked against t
+    at random points of check_box with 50 digits (raises on disagreement: engine error)."""
+    import mpmath
+    import sympy as sp
+
+    e = to_sympy(t, positive=positive)
+    if how == "expand":
+        e2 = sp.expand(e)
+    elif how == "normal":
+        e2 = cas_normal_form(e)
+    elif how == "together":
+        e2 = sp.together(sp.expand(e))
+    elif isinstance(how, tuple) and how[0] == "collect":
+        e2 = sp.collect(sp.expand(e), [sp.Symbol(n, positive=(n in {getattr(p, 'args', [p])[0] if isinstance(p, T) else p for p in positive})) if False else s for s in e.free_symbols if s.name in how[1:]])
+    else:
+        raise ValueError(how)
+    r = from_sympy(e2, {v.args[0]: v.sort for v in tm.free_vars(t)})
+    if check_box:
+        rng = random.Random(seed)
+        funcs = default_app_interp(t, seed)
+        ok = 0
+        for _ in range(200):
+            pt = sample_point(check_box, rng)
+            try:
+                a, b = mp_eval(t, pt, funcs), mp_eval(r, pt, funcs)
+            except tm.EvalError:
+                continue
+            if abs(a - b) > mpmath.mpf("1e-30") * max(abs(a), abs(b), 1):
+                raise RuntimeError(f"CAS rewrite changed the value at {pt}: {a} vs {b}")
+            ok += 1
+            if ok >= 8:
+                break
+        if ok == 0:
+            raise RuntimeError("CAS rewrite could not be checked at any point")
+    return r
